@@ -23,12 +23,6 @@ V(p, why) == [p |-> p, l |-> l, tr |-> Ev.id, why |-> why, h |-> 0]
 Bump(s, f) == [s EXCEPT ![f] = @ + 1]
 BumpIf(s, c, f) == IF c THEN Bump(s, f) ELSE s
 
-Take(sq, n) == SubSeq(sq, 1, IF n > Len(sq) THEN Len(sq) ELSE n)
-ToMap(ps) == [k \in {ps[i][1] : i \in DOMAIN ps} |-> (CHOOSE i \in DOMAIN ps : ps[i][1] = k) ]
-MapOf(ps) == LET idx == ToMap(ps) IN [k \in DOMAIN idx |-> ps[idx[k]][2]]
-KindNo(s) == IF s = "add" THEN 1 ELSE IF s = "rem" THEN 2 ELSE 3
-Num(seq) == [i \in DOMAIN seq |-> <<KindNo(seq[i][1]), seq[i][2], seq[i][3], seq[i][4]>>]
-
 C06(e) ==
   IF e.big THEN (IF e.cbres # "ok" THEN {V("C06", "entry diff of two large trees is not the difference of their maps")} ELSE {})
   ELSE LET MD == Num(ModelDiff(MapOf(e.mo), MapOf(e.mn)))
@@ -37,10 +31,10 @@ C06(e) ==
           \cup (IF e.curres # "ok" THEN {V("C06", "NextEntry fails on a healthy store")}
                 ELSE IF e.cur # MD THEN {V("C06", "the cursor interface disagrees with the difference of the maps")}
                 ELSE IF ~e.curtail THEN {V("C06", "NextEntry does not keep returning ErrNoMoreDiffs at the end")} ELSE {})
-          \cup UNION {IF e.stops[i].res # "ok" \/ e.stops[i].seq # Take(MD, e.stops[i].at)
+          \cup UNION {IF e.stops[i].res # "ok" \/ e.stops[i].seq # TakeD(MD, e.stops[i].at)
                       THEN {V("C06", "a diff stopped by its callback errs or has not reported exactly the first differences")} ELSE {}
                       : i \in DOMAIN e.stops}
-          \cup UNION {IF e.fails[i].res # "err" \/ e.fails[i].seq # Take(MD, e.fails[i].at)
+          \cup UNION {IF e.fails[i].res # "err" \/ e.fails[i].seq # TakeD(MD, e.fails[i].at)
                       THEN {V("C06", "a callback error is not returned, or the diff went on after it")} ELSE {}
                       : i \in DOMAIN e.fails}
 
